@@ -30,15 +30,18 @@ CONSTANTS
   MaxFile,              \* bound on the length of the command log
   MaxCtr,               \* bound on internal ids handed out per index incarnation
   MaxAcc,               \* bound on the reinforce counter
+  AccSeeds,             \* counters a caller may write into "_access_count" itself (migrated data), subset of 1..8
   MaxVer,               \* bound on edge versions kept per (src,dst,rel)
   MaxOps,               \* bound on the length of a behaviour (history)
   MaxRej,               \* bound on the number of rejected calls in a behaviour
   CoreVacuum,           \* TRUE: offer direct core-level graph vacuum with arbitrary cutoffs and no restarts
+  Imports, Evolves,     \* TRUE: offer VImport/VImportCommit, VEvolve
   Seeded,               \* TRUE: behaviours start with index GName created and every id of Ids added
   GName,                \* the index whose namespace the modelled graph lives in
   Devs                  \* named deviations of the pinned code that this run models (see known_findings.json)
 
 Nil == "nil"
+BadVec == "vbad"     \* a vector of the wrong dimension (offered to VAdd / VEvolve when "vbad" is in Vecs)
 Dev(d) == d \in Devs
 \* graph id of a vector node (index::id in the code); other namespaces hold no modelled edges
 GId(n, id) == IF n = GName THEN id ELSE Nil
@@ -62,7 +65,7 @@ ValidPair(metric, prec) ==
 (* of the metadata map: "_created_at" (memory-enabled indexes, value "T"), *)
 (* "_access_count" ("1".."MaxAcc") and "_last_accessed" ("T").             *)
 (***************************************************************************)
-SysKeys  == {"_created_at", "_access_count", "_last_accessed"}
+SysKeys  == {"_created_at", "_access_count", "_last_accessed", "_is_historical"}
 AllKeys  == MKeys \cup SysKeys
 NoMeta   == [k \in AllKeys |-> Nil]
 AccStr   == [i \in 0..9 |-> ToString(i)]
@@ -91,9 +94,10 @@ VARIABLES
   clock,    \* logical time for edge timestamps (strictly increasing per graph op)
   ops,      \* history: the operations performed so far (with results)
   dev,      \* set of named deviations exercised by this behaviour
-  delat     \* [GNodes -> time of the node's last VDelete, 0 if none or re-added since] (ground truth for C12)
+  delat,    \* [GNodes -> time of the node's last VDelete, 0 if none or re-added since] (ground truth for C12)
+  dirty     \* TRUE between a VImport (which bypasses the log by design) and the next commit/snapshot/compaction
 
-vars == <<mem, snap, file, clock, ops, dev, delat>>
+vars == <<mem, snap, file, clock, ops, dev, delat, dirty>>
 
 Exists(n) == mem.ix[n].cfg # Nil
 Live(ix, id) == ix.e2i[id] # 0 /\ ix.nodes[ix.e2i[id]].st = "live"
@@ -351,13 +355,13 @@ KVSet(k, v) ==
   /\ mem' = [mem EXCEPT !.kv[k] = v]
   /\ Journal(<<CSet(k, v)>>)
   /\ Log([op |-> "KVSet", k |-> k, v |-> v, res |-> "ok"])
-  /\ UNCHANGED <<snap, clock, dev, delat>>
+  /\ UNCHANGED <<snap, clock, dev, delat, dirty>>
 
 KVDelete(k) ==
   /\ mem' = [mem EXCEPT !.kv[k] = Nil]
   /\ Journal(<<CDel(k)>>)
   /\ Log([op |-> "KVDelete", k |-> k, res |-> "ok"])
-  /\ UNCHANGED <<snap, clock, dev, delat>>
+  /\ UNCHANGED <<snap, clock, dev, delat, dirty>>
 
 \* VCreate journals VCREATE (carrying the maintenance config) before CreateVectorIndex validates
 \* (harmless: replay ignores a VCREATE for a name it already knows).
@@ -369,13 +373,13 @@ VCreate(n, cfg, mc, al) ==
      ELSE /\ Journal(<<CCreate(n, cfg, al, mc)>>)
           /\ SetIx(n, NewIndex(cfg, mc, al))
           /\ Log([op |-> "VCreate", n |-> n, cfg |-> cfg, mc |-> mc, al |-> al, res |-> "ok"])
-  /\ UNCHANGED <<snap, clock, dev, delat>>
+  /\ UNCHANGED <<snap, clock, dev, delat, dirty>>
 
 VDeleteIndex(n) ==
   /\ IF Exists(n)
      THEN Journal(<<CDrop(n)>>) /\ SetIx(n, NoIndex) /\ Log([op |-> "VDeleteIndex", n |-> n, res |-> "ok"])
      ELSE UNCHANGED <<mem, file>> /\ Log([op |-> "VDeleteIndex", n |-> n, res |-> "err"])
-  /\ UNCHANGED <<snap, clock, dev, delat>>
+  /\ UNCHANGED <<snap, clock, dev, delat, dirty>>
 
 \* metadata actually stored by VAdd: memory-enabled indexes stamp _created_at
 StampMeta(ix, m) == IF CfgMem[ix.cfg] THEN [m EXCEPT !["_created_at"] = "T"] ELSE m
@@ -384,7 +388,8 @@ VAdd(n, id, vec, um) ==
   LET ix == mem.ix[n]
       m  == StampMeta(ix, MkMeta(um))
       rec == [op |-> "VAdd", n |-> n, id |-> id, vec |-> vec, meta |-> um] IN
-  /\ IF ~Exists(n)
+  /\ (vec = BadVec => Exists(n) /\ LiveIds(ix) # {})      \* a wrong-dimension vector is refused once a live vector fixes the dimension
+  /\ IF ~Exists(n) \/ vec = BadVec
      THEN UNCHANGED <<mem, file>> /\ Log(rec @@ [res |-> "err"])
      ELSE IF Live(ix, id)
      THEN /\ Log(rec @@ [res |-> "err"])
@@ -395,8 +400,8 @@ VAdd(n, id, vec, um) ==
           /\ Journal(<<CAdd(n, id, vec, m)>>)
           /\ Log(rec @@ [res |-> "ok"])
   /\ dev' = IF Exists(n) /\ Live(ix, id) /\ Dev("journal_before_validate") THEN dev \cup {"journal_before_validate"} ELSE dev
-  /\ delat' = IF Exists(n) /\ ~Live(ix, id) /\ GId(n, id) \in GNodes THEN [delat EXCEPT ![GId(n, id)] = 0] ELSE delat
-  /\ UNCHANGED <<snap, clock>>
+  /\ delat' = IF Exists(n) /\ vec # BadVec /\ ~Live(ix, id) /\ GId(n, id) \in GNodes THEN [delat EXCEPT ![GId(n, id)] = 0] ELSE delat
+  /\ UNCHANGED <<snap, clock, dirty>>
 
 \* VAddBatch of two items (ids may coincide, may already exist): all-or-nothing
 VAddBatch(n, id1, v1, id2, v2, um) ==
@@ -404,6 +409,7 @@ VAddBatch(n, id1, v1, id2, v2, um) ==
       m  == StampMeta(ix, MkMeta(um))
       rec == [op |-> "VAddBatch", n |-> n, id1 |-> id1, v1 |-> v1, id2 |-> id2, v2 |-> v2, meta |-> um]
       bad == Live(ix, id1) \/ Live(ix, id2) \/ id1 = id2 IN
+  /\ v1 # BadVec /\ v2 # BadVec
   /\ IF ~Exists(n)
      THEN UNCHANGED <<mem, file>> /\ Log(rec @@ [res |-> "err"])
      ELSE IF bad
@@ -414,13 +420,13 @@ VAddBatch(n, id1, v1, id2, v2, um) ==
           /\ Log(rec @@ [res |-> "ok"])
   /\ delat' = IF Exists(n) /\ ~bad
               THEN [x \in GNodes |-> IF x \in {GId(n, id1), GId(n, id2)} THEN 0 ELSE delat[x]] ELSE delat
-  /\ UNCHANGED <<snap, clock, dev>>
+  /\ UNCHANGED <<snap, clock, dev, dirty>>
 
 VDelete(n, id) ==
   LET ix == mem.ix[n]
       rec == [op |-> "VDelete", n |-> n, id |-> id] IN
   /\ IF ~Exists(n) \/ ~Live(ix, id)
-     THEN UNCHANGED <<mem, file, clock, delat>> /\ Log(rec @@ [res |-> "err"])
+     THEN UNCHANGED <<mem, file, clock, delat, dirty>> /\ Log(rec @@ [res |-> "err"])
      ELSE LET ts == clock + 1
               g1 == Cascade(G(mem), GId(n, id), ts) IN
           /\ clock' = ts
@@ -428,7 +434,7 @@ VDelete(n, id) ==
           /\ Journal(<<CVDel(n, id, ts)>>)
           /\ delat' = IF GId(n, id) \in GNodes THEN [delat EXCEPT ![GId(n, id)] = ts] ELSE delat
           /\ Log(rec @@ [res |-> "ok"])
-  /\ UNCHANGED <<snap, dev>>
+  /\ UNCHANGED <<snap, dev, dirty>>
 
 \* VDelete whose background cascade is cut short by a shutdown before it unlinked anything,
 \* followed by the restart: the replay of VDEL must do the cascade's work.
@@ -442,7 +448,8 @@ VDeleteCut(n, id) ==
   /\ mem' = Recover(snap, file')
   /\ delat' = IF GId(n, id) \in GNodes THEN [delat EXCEPT ![GId(n, id)] = ts] ELSE delat
   /\ Log([op |-> "VDeleteCut", n |-> n, id |-> id, res |-> "ok"])
-  /\ UNCHANGED <<snap, dev>>
+  /\ ~dirty
+  /\ UNCHANGED <<snap, dev, dirty>>
 
 VSetMetadata(n, id, k, v) ==
   LET ix == mem.ix[n]
@@ -453,7 +460,7 @@ VSetMetadata(n, id, k, v) ==
           /\ SetIx(n, IxSetMeta(ix, id, m))
           /\ Journal(<<CMeta(n, id, m)>>)
           /\ Log(rec @@ [res |-> "ok"])
-  /\ UNCHANGED <<snap, clock, dev, delat>>
+  /\ UNCHANGED <<snap, clock, dev, delat, dirty>>
 
 \* VReinforce on one id: unknown ids are skipped silently (nil error)
 VReinforce(n, id) ==
@@ -471,7 +478,7 @@ VReinforce(n, id) ==
           /\ SetIx(n, IxSetMeta(ix, id, m))
           /\ Journal(<<CMeta(n, id, m)>>)
           /\ Log(rec @@ [res |-> "ok"])
-  /\ UNCHANGED <<snap, clock, dev, delat>>
+  /\ UNCHANGED <<snap, clock, dev, delat, dirty>>
 
 VUpdateIndexConfig(n, mc) ==
   /\ IF ~Exists(n)
@@ -479,7 +486,7 @@ VUpdateIndexConfig(n, mc) ==
      ELSE /\ SetIx(n, [mem.ix[n] EXCEPT !.maint = mc])
           /\ Journal(<<CConfig(n, mc)>>)
           /\ Log([op |-> "VUpdateIndexConfig", n |-> n, mc |-> mc, res |-> "ok"])
-  /\ UNCHANGED <<snap, clock, dev, delat>>
+  /\ UNCHANGED <<snap, clock, dev, delat, dirty>>
 
 VUpdateAutoLinks(n, al) ==
   /\ IF ~Exists(n)
@@ -487,19 +494,19 @@ VUpdateAutoLinks(n, al) ==
      ELSE /\ SetIx(n, [mem.ix[n] EXCEPT !.al = al])
           /\ Journal(<<CAutoLinks(n, al)>>)
           /\ Log([op |-> "VUpdateAutoLinks", n |-> n, al |-> al, res |-> "ok"])
-  /\ UNCHANGED <<snap, clock, dev, delat>>
+  /\ UNCHANGED <<snap, clock, dev, delat, dirty>>
 
 \* VTriggerMaintenance(n, "vacuum") / "refine": no observable change
 Vacuum(n) ==
   /\ Exists(n)
   /\ SetIx(n, IxVacuum(mem.ix[n]))
   /\ Log([op |-> "Vacuum", n |-> n, res |-> "ok"])
-  /\ UNCHANGED <<snap, file, clock, dev, delat>>
+  /\ UNCHANGED <<snap, file, clock, dev, delat, dirty>>
 
 Refine(n) ==
   /\ Exists(n)
   /\ Log([op |-> "Refine", n |-> n, res |-> "ok"])
-  /\ UNCHANGED <<mem, snap, file, clock, dev, delat>>
+  /\ UNCHANGED <<mem, snap, file, clock, dev, delat, dirty>>
 
 \* VCompress: only float32 indexes with at least one vector; the target must be a valid
 \* precision for the index metric.  A rejected call leaves the index untouched.
@@ -514,7 +521,61 @@ VCompress(n, p) ==
           /\ snap' = <<mem'>>
           /\ file' = <<>>
           /\ Log(rec @@ [res |-> "ok"])
+  /\ dirty' = (IF okc THEN FALSE ELSE dirty)
   /\ UNCHANGED <<clock, dev, delat>>
+
+\* VImport of two items: bypasses the log by design (AddBatchFast); all-or-nothing like VAddBatch.
+\* Until VImportCommit (= SaveSnapshot) or another snapshot/compaction the imported items are volatile.
+VImport(n, id1, v1, id2, v2, um) ==
+  LET ix == mem.ix[n]
+      m  == StampMeta(ix, MkMeta(um))
+      rec == [op |-> "VImport", n |-> n, id1 |-> id1, v1 |-> v1, id2 |-> id2, v2 |-> v2, meta |-> um]
+      bad == Live(ix, id1) \/ Live(ix, id2) \/ id1 = id2 IN
+  /\ v1 # BadVec /\ v2 # BadVec
+  /\ IF ~Exists(n) \/ bad
+     THEN UNCHANGED <<mem, dirty, delat>> /\ Log(rec @@ [res |-> "err"])
+     ELSE /\ Len(ix.nodes) + 1 < MaxCtr
+          /\ SetIx(n, IxAdd(IxAdd(ix, id1, v1, m), id2, v2, m))
+          /\ dirty' = TRUE
+          /\ delat' = [x \in GNodes |-> IF x \in {GId(n, id1), GId(n, id2)} THEN 0 ELSE delat[x]]
+          /\ Log(rec @@ [res |-> "ok"])
+  /\ UNCHANGED <<snap, file, clock, dev>>
+
+VImportCommit(n) ==
+  /\ IF ~Exists(n)
+     THEN UNCHANGED <<snap, file, dirty>> /\ Log([op |-> "VImportCommit", n |-> n, res |-> "err"])
+     ELSE snap' = <<mem>> /\ file' = <<>> /\ dirty' = FALSE /\ Log([op |-> "VImportCommit", n |-> n, res |-> "ok"])
+  /\ UNCHANGED <<mem, clock, dev, delat>>
+
+\* VEvolve(old -> new): the incoming edges of old are copied to the new node, old is linked to it
+\* (superseded_by / evolves_from), the new node is added with old's metadata overridden by um, and old
+\* is marked historical.  `new` stands for the id the engine mints.  A refused evolve changes nothing.
+IncomingActive(g, x) == {e \in g.out : e.d = 0 /\ e.t = x}
+VEvolve(n, old, new, vec, um) ==
+  LET ix == mem.ix[n]
+      rec == [op |-> "VEvolve", n |-> n, old |-> old, new |-> new, vec |-> vec, meta |-> um] IN
+  /\ n = GName /\ old \in GNodes /\ new \in GNodes /\ old # new
+  /\ IF ~Exists(n) \/ ~Live(ix, old) \/ vec = BadVec
+     THEN UNCHANGED <<mem, file, clock, delat>> /\ Log(rec @@ [res |-> "err"])
+     ELSE LET ts == clock + 1
+              merged == MergeMeta(NodeOf(ix, old).meta, MkMeta(um))
+              m  == StampMeta(ix, merged)
+              inc == SetToSeq(IncomingActive(G(mem), old))
+              g1 == FoldLeft(LAMBDA g, e : AddEdge(g, e.s, new, e.r, "w0", Nil, ts), G(mem), inc)
+              g2 == LinkG(g1, old, new, "superseded_by", "evolves_from", "w0", "pev", ts)
+              ix1 == IxAdd(ix, new, vec, m)
+              mo == [NodeOf(ix1, old).meta EXCEPT !["_is_historical"] = "true"]
+              ix2 == IxSetMeta(ix1, old, mo) IN
+          /\ ~Live(ix, new) /\ Len(ix.nodes) < MaxCtr
+          /\ ~\E e \in mem.out : e.s = new \/ e.t = new         \* a freshly minted id has no edges
+          /\ clock' = ts
+          /\ mem' = [mem EXCEPT !.ix[n] = ix2, !.out = g2.out, !.in = g2.in]
+          /\ Journal(<<CAdd(n, new, vec, m)>>
+                     \o [j \in 1..Len(inc) |-> CLink(inc[j].s, new, inc[j].r, Nil, "w0", Nil, ts)]
+                     \o <<CLink(old, new, "superseded_by", "evolves_from", "w0", "pev", ts), CMeta(n, old, mo)>>)
+          /\ delat' = [delat EXCEPT ![new] = 0]
+          /\ Log(rec @@ [res |-> "ok"])
+  /\ UNCHANGED <<snap, dev, dirty>>
 
 \* ------------------------------ graph ------------------------------------
 VLink(s, t, r, inv, w, p) ==
@@ -524,7 +585,7 @@ VLink(s, t, r, inv, w, p) ==
   /\ mem' = [mem EXCEPT !.out = g1.out, !.in = g1.in]
   /\ Journal(<<CLink(s, t, r, inv, w, p, ts)>>)
   /\ Log([op |-> "VLink", s |-> s, t |-> t, r |-> r, inv |-> inv, w |-> w, p |-> p, res |-> "ok"])
-  /\ UNCHANGED <<snap, dev, delat>>
+  /\ UNCHANGED <<snap, dev, delat, dirty>>
 
 VUnlink(s, t, r, inv, hard) ==
   LET ts == clock + 1
@@ -533,7 +594,7 @@ VUnlink(s, t, r, inv, hard) ==
   /\ mem' = [mem EXCEPT !.out = g1.out, !.in = g1.in]
   /\ Journal(<<CUnlink(s, t, r, inv, hard, ts)>>)
   /\ Log([op |-> "VUnlink", s |-> s, t |-> t, r |-> r, inv |-> inv, hard |-> hard, res |-> "ok"])
-  /\ UNCHANGED <<snap, dev, delat>>
+  /\ UNCHANGED <<snap, dev, delat, dirty>>
 
 \* Engine.RunGraphVacuum: the retention comes from the first index whose maintenance config
 \* sets one (token "mc2": 1ns), i.e. everything soft-deleted so far is pruned. Journaled (GVACUUM).
@@ -543,7 +604,7 @@ GraphVacuum ==
   /\ mem' = [mem EXCEPT !.out = g1.out, !.in = g1.in]
   /\ Journal(<<CGVacuum(clock)>>)
   /\ Log([op |-> "GraphVacuum", res |-> "ok"])
-  /\ UNCHANGED <<snap, clock, dev, delat>>
+  /\ UNCHANGED <<snap, clock, dev, delat, dirty>>
 
 \* core.DB.VacuumGraph(cutoff) called directly with an arbitrary horizon (not an engine call, not
 \* journaled): only offered in profiles without restarts (CoreVacuum = TRUE)
@@ -553,12 +614,13 @@ GraphVacuumAt(cutoff) ==
   /\ cutoff \in 1..clock
   /\ mem' = [mem EXCEPT !.out = g1.out, !.in = g1.in]
   /\ Log([op |-> "GraphVacuumAt", cutoff |-> cutoff, res |-> "ok"])
-  /\ UNCHANGED <<snap, file, clock, dev, delat>>
+  /\ UNCHANGED <<snap, file, clock, dev, delat, dirty>>
 
 \* ------------------------------ admin ------------------------------------
 SaveSnapshot ==
   /\ snap' = <<mem>>
   /\ file' = <<>>
+  /\ dirty' = FALSE
   /\ Log([op |-> "SaveSnapshot", res |-> "ok"])
   /\ UNCHANGED <<mem, clock, dev, delat>>
 
@@ -566,13 +628,14 @@ RewriteAOF ==
   /\ file' = IF Dev("rewrite_keeps_snapshot") THEN Tail(Emit(mem)) ELSE Emit(mem)
   /\ Log([op |-> "RewriteAOF", res |-> "ok"])
   /\ dev' = IF Dev("rewrite_keeps_snapshot") /\ snap # <<>> THEN dev \cup {"rewrite_keeps_snapshot"} ELSE dev
+  /\ dirty' = FALSE
   /\ UNCHANGED <<mem, snap, clock, delat>>
 
 Reopen ==
-  /\ ~CoreVacuum
+  /\ ~CoreVacuum /\ ~dirty
   /\ mem' = Recover(snap, file)
   /\ Log([op |-> "Reopen", res |-> "ok"])
-  /\ UNCHANGED <<snap, file, clock, dev, delat>>
+  /\ UNCHANGED <<snap, file, clock, dev, delat, dirty>>
 
 \* seeded start: index GName exists (first configuration of Cfgs) and holds every id
 SeedCfg == CHOOSE c \in Cfgs : TRUE
@@ -585,7 +648,7 @@ SeedOps == <<[op |-> "VCreate", n |-> GName, cfg |-> SeedCfg, mc |-> Nil, al |->
 SeedFile == <<CCreate(GName, SeedCfg, Nil, Nil)>> \o [j \in 1..Len(SeedIds) |-> CAdd(GName, SeedIds[j], SeedVec, NoMeta)]
 
 Init ==
-  /\ snap = <<>> /\ clock = 0 /\ dev = {} /\ delat = [x \in GNodes |-> 0]
+  /\ snap = <<>> /\ clock = 0 /\ dev = {} /\ delat = [x \in GNodes |-> 0] /\ dirty = FALSE
   /\ IF Seeded
      THEN mem = [EmptyMem EXCEPT !.ix[GName] = SeedIx] /\ file = SeedFile /\ ops = SeedOps
      ELSE mem = EmptyMem /\ file = <<>> /\ ops = <<>>
@@ -596,10 +659,14 @@ Next ==
   \/ \E n \in Names, cfg \in Cfgs, mc \in Maints \cup {Nil}, al \in ALs \cup {Nil} : VCreate(n, cfg, mc, al)
   \/ \E n \in Names : VDeleteIndex(n)
   \/ \E n \in Names, id \in Ids, v \in Vecs, um \in UserMetas : VAdd(n, id, v, um)
+  \/ (Imports /\ \E n \in Names, id1, id2 \in Ids, v1, v2 \in Vecs, um \in UserMetas : VImport(n, id1, v1, id2, v2, um))
+  \/ (Imports /\ \E n \in Names : VImportCommit(n))
+  \/ (Evolves /\ \E n \in Names, old, new \in Ids, v \in Vecs, um \in UserMetas : VEvolve(n, old, new, v, um))
   \/ \E n \in Names, id1, id2 \in Ids, v1, v2 \in Vecs, um \in UserMetas : VAddBatch(n, id1, v1, id2, v2, um)
   \/ \E n \in Names, id \in Ids : VDelete(n, id)
   \/ \E n \in Names, id \in Ids : VDeleteCut(n, id)
   \/ \E n \in Names, id \in Ids, k \in MKeys, v \in MVals : VSetMetadata(n, id, k, v)
+  \/ \E n \in Names, id \in Ids, c \in AccSeeds : VSetMetadata(n, id, "_access_count", AccStr[c])
   \/ \E n \in Names, id \in Ids : VReinforce(n, id)
   \/ \E n \in Names, mc \in Maints : VUpdateIndexConfig(n, mc)
   \/ \E n \in Names, al \in ALs : VUpdateAutoLinks(n, al)
@@ -621,11 +688,11 @@ Spec == Init /\ [][Next]_vars
 (***************************************************************************)
 \* C01: closing and reopening NOW would read back exactly what is read now
 \* (evaluated in every reachable state = every history, every restart position)
-Inv_CleanRestart == (dev = {} /\ ~CoreVacuum) => Obs(Recover(snap, file)) = Obs(mem)
+Inv_CleanRestart == (dev = {} /\ ~CoreVacuum /\ ~dirty) => Obs(Recover(snap, file)) = Obs(mem)
 
 \* C01 (repeated restarts): recovery is idempotent on its own result
 Inv_RestartIdempotent ==
-  (dev = {} /\ ~CoreVacuum) => LET m1 == Recover(snap, file) IN Obs(Recover(snap, file)) = Obs(m1)
+  (dev = {} /\ ~CoreVacuum /\ ~dirty) => LET m1 == Recover(snap, file) IN Obs(Recover(snap, file)) = Obs(m1)
 
 \* C04: the implementation-shaped index agrees with the plain map of records:
 \*   e2i points at a live node carrying that id, and no id has two live nodes.
@@ -684,11 +751,17 @@ Bound == /\ Len(file) <= MaxFile
          /\ \A e \in mem.out : Cardinality({x \in mem.out : x.s = e.s /\ x.t = e.t /\ x.r = e.r}) <= MaxVer
 
 \* the history is not part of the state identity
-View == <<mem, snap, file, clock, dev, delat>>
+View == <<mem, snap, file, clock, dev, delat, dirty>>
+
+\* C05 corpus: every (reachable state, rejected call) pair is its own state, emitted when found and not expanded
+\* further (what follows a rejection is covered by the restarts the replayer appends and by the random walks)
+LastIsRej == ops # <<>> /\ ops[Len(ops)].res = "err"
+ViewRej == <<View, IF LastIsRej THEN ops[Len(ops)] ELSE [op |-> "none"]>>
 
 \* corpus channel: one JSON line per expanded state = the behaviour that reached it first
 \* plus the projection the implementation must show after it
 Emit_Corpus == PrintT(<<"CORPUS", ToJson([ops |-> ops, obs |-> Obs(mem), dev |-> dev])>>)
+BoundRejLeaf == Bound /\ (LastIsRej => (Emit_Corpus /\ FALSE))
 NextCorpus == Emit_Corpus /\ Next
 SpecCorpus == Init /\ [][NextCorpus]_vars
 \* restart-focused corpus: only the states reached by a Reopen are emitted (histories ending in a restart)
